@@ -1,6 +1,7 @@
 """C12 — no change left unapplied; no reload while reloads are held back."""
 import re
 import vlib
+from props import lbcgen
 
 PROP = "C12"
 PROPS_FILES = ["Nic/Props/C12.lean"]
@@ -172,6 +173,23 @@ def gen(rng, tier):
         for eps in ("b", "_"):
             cases.append(dict(line="rel plus=1 dw=0 dssl=1 rf=_ af=%d ops=en;av|v1|a|0;av|v2|a|0;ai|i1|a|0;ai|i2|a|0;ev|v1+v2|%s|0;ei|i1+i2|%s|0" % (k, eps, eps),
                               tags=["rel", "plus", "api-fault-position"]))
+    m = 150 if tier == "quick" else 1500
+    for i in range(m):
+        plus = rng.below(2)
+        cases.append(dict(line=lbcgen.gen_case(rng, plus, 2 + rng.below(5), faults=True, batchy=(i % 3 == 0)),
+                          tags=["lbc", "plus" if plus else "oss"] + (["batchy"] if i % 3 == 0 else [])))
+    # batch shapes: exactly one task of the batch changes what NGINX reads, at each position, the others are EndpointSlices no resource uses
+    base = "+s1/0&+s2/0&+e1.0/s1/a&+k1/htpasswd/0&+k4/ca/0&+p1/basic/k1/0&+p5/emtls/k4/0&+v1/s1/0/pol=p1&+v2/s1/0/rpol=p5&+i1/s2/0&+t1/s1/0"
+    changers = ["+v1/s1/1/pol=p1", "-v2", "+i1/s2/1", "+t1/s1/1", "+s1/1", "+k4/ca/1", "+p1/basic/k1/1", "-p5", "+e1.0/s1/a+b", "-i1", "+i2/s2/0"]
+    for plus in (0, 1):
+        for ch in changers:
+            for n in (2, 3, 4):
+                for pos in range(n + 1):
+                    idle = ["+e3.%d/s3/%s" % (j, rng.choice(["a", "b", "c"])) for j in range(n)]
+                    burst = idle[:pos] + [ch] + idle[pos:]
+                    if tier == "quick" and (n + pos + len(ch) + plus) % 3:
+                        continue
+                    cases.append(dict(line="lbc plus=%d dssl=1 rf=_ af=_ bursts=%s;%s" % (plus, base, "&".join(burst)), tags=["lbc", "batch-shape"]))
     return cases
 
 
@@ -270,8 +288,9 @@ def judge(case, impl, model, spec):
                 r["corr"] = "operation count differs"
     else:
         r["nontrivial"] = "S|" in impl
-        if spec != "ok":
-            r["spec"] = spec
+        mine = [c for c in spec.split(";") if c != "ok" and ":stale:" not in c]   # staleness is C15's
+        if mine:
+            r["spec"] = mine[0]
     return r
 
 
@@ -280,4 +299,13 @@ def sig_weight_updates(case, issue):
     return bool(re.search(r"\(av\|w\d+\|[^)]*\):reload-while-held$", issue)) and " dw=1 " in case.get("line", "")
 
 
-SIGNATURES = {"weight-updates-enable-reloads-while-held": sig_weight_updates}
+def sig_batch_flag(case, issue):
+    """S-C12-b: a batch that contains a task which is not an EndpointSlice is reloaded at the drain even when nothing changed."""
+    m = re.match(r"task#(\d+):needless-reload-at-drain$", issue)
+    if not m or not case.get("impl"):
+        return False
+    kinds = lbcgen.batch_of(case["impl"], int(m.group(1)))
+    return any(k != "endpointslice" for k in kinds)
+
+
+SIGNATURES = {"weight-updates-enable-reloads-while-held": sig_weight_updates, "batch-reload-flag-set-without-change": sig_batch_flag}
